@@ -5,6 +5,7 @@ CONSTANTS
   HasTimeout = {j1, j3}
   IgnoresTerm = {j1}
   PopenMayFail = {j2}
+  PreFix = FALSE
   CoarseCancel = FALSE
   Modes = {"nowait", "wait"}
   MaxPreempt = 1000
